@@ -104,6 +104,13 @@ def audit_function(fn, rel):
             if isinstance(c, ast.Call) and getattr(c.func, "id", getattr(c.func, "attr", "")) == "Event":
                 if any(kw.arg == "time" and _reads_now(kw.value) for kw in c.keywords):
                     held.setdefault(tgt, n.lineno)
+    # a held event appended to a list: `ev = Event(time=self.now + …)` … `events.append(ev)`
+    for n in nodes:
+        if isinstance(n, ast.Expr) and isinstance(n.value, ast.Call) and isinstance(n.value.func, ast.Attribute) \
+                and n.value.func.attr in ("append", "extend") and isinstance(n.value.func.value, ast.Name) and n.value.args:
+            for x in ast.walk(n.value.args[0]):
+                if isinstance(x, ast.Name) and x.id in held and x.id != n.value.func.value.id:
+                    held.setdefault(n.value.func.value.id, held[x.id])
     # simple aliases: `result = relay_events`
     for n in sorted((x for x in nodes if isinstance(x, ast.Assign)), key=lambda x: x.lineno):
         if len(n.targets) == 1 and isinstance(n.targets[0], ast.Name) and isinstance(n.value, ast.Name) \
